@@ -8,7 +8,7 @@
 
    Nothing here mentions the implementation; the fields these operators are applied to in
    Props/C14.v are the models of Model/CoreModel.v (dipole_H, dipole_BH, sphere_BH,
-   circle_axis_Hz) instantiated with Coq's reals.
+   circle_axis_Hz, polyline_H) instantiated with Coq's reals.
 
    There is NO surface or line integral of a vector field in three dimensions here: the
    installed libraries (Coquelicot) only have the one-dimensional Riemann integral RInt, and no
